@@ -242,9 +242,42 @@ def run(tier, t0):
     derived_ord = any(i['trait'] == 'std::cmp::Ord' and i['self'].endswith('CfiRules') and i['derived'] for i in c.impls)
     if not adt or adt['variants'][0]['fields'][0][0] != 'address' or not derived_ord:
         res.violation('C06.6', 'C06.6|ord', None, None, 'CfiRules must derive Ord with `address` as its first field', file='breakpad-symbols/src/sym_file/types.rs')
+    # C06.8 the FrameWalker the evaluator runs against for real contexts answers every callback from the callee frame
+    # and the stack image alone: each method is a fixed composition of calls, and the only conditions it may branch on
+    # are "did the conversion / name lookup succeed".  A callback that refuses readable memory (e.g. below the callee sp)
+    # makes `ADDR ^` fail although the word is there.
+    res.rule('C06.8', 0, floor=11, note='CfiStackWalker callbacks: fixed call compositions, no branching on addresses or register values')
+    cu = prog.crate('minidump_unwind')
+    PFX = "<CfiStackWalker<'a, C> as breakpad_symbols::FrameWalker>::"
+    WANT = {
+        'get_register_at_address': (['minidump::UnifiedMemory::get_memory_at_address', 'std::option::Option::and_then'], []),
+        'get_callee_register': (['minidump::CpuContext::get_register', 'std::option::Option::and_then'], []),
+        'set_caller_register': (['minidump::CpuContext::memoize_register', 'std::convert::TryFrom::try_from', 'std::result::Result::ok', 'std::collections::HashSet::insert', 'minidump::CpuContext::set_register'], ['memoize_register', 'try_from']),
+        'clear_caller_register': (['minidump::CpuContext::memoize_register', 'std::collections::HashSet::remove'], ['memoize_register']),
+        'set_cfa': (['minidump::CpuContext::stack_pointer_register_name', 'std::convert::TryFrom::try_from', 'std::result::Result::ok', 'std::collections::HashSet::insert', 'minidump::CpuContext::set_register'], ['try_from']),
+        'set_ra': (['minidump::CpuContext::instruction_pointer_register_name', 'std::convert::TryFrom::try_from', 'std::result::Result::ok', 'std::collections::HashSet::insert', 'minidump::CpuContext::set_register'], ['try_from']),
+    }
+    for meth, (calls, conds) in WANT.items():
+        g = cu.fn(PFX + meth)
+        if g is None:
+            res.error('C06.8', 'CfiStackWalker::%s not found' % meth)
+            continue
+        res.rule('C06.8', 1)
+        got = [strip_generics(g.callee_decl(t) if 'CpuContext' in (g.callee_decl(t) or '') or 'TryFrom' in (g.callee_decl(t) or '') else (g.callee(t) or '')) for b, t in g.calls() if not is_log_term(t)]
+        got = [x for x in got if not x.endswith('FromResidual>::from_residual') and 'from_residual' not in x and not x.endswith('Try>::branch')]
+        if sorted(got) != sorted(calls):
+            res.violation('C06.8', 'C06.8|%s|calls' % meth, g, g.line, 'CfiStackWalker::%s calls %s; expected exactly %s' % (meth, sorted(got), sorted(calls)))
+        for b in sorted(g.reach):
+            t = g.blocks[b]['t']
+            if t['k'] != 'switch' or is_log_term(t):
+                continue
+            res.rule('C06.8', 1)
+            cs = show(g.expand(g.operand_tree(t['x'])))
+            if not (cs.startswith('(discr ') and any(k in cs for k in conds)):
+                res.violation('C06.8', 'C06.8|%s|branch' % meth, g, t.get('line'), 'CfiStackWalker::%s branches on %s: the callback must not depend on the address or value asked for' % (meth, cs[:160]))
     res.assumptions += ['numeric results of expressions are not computed; the table fixes which wrapping operation is applied to which operands in which order',
                         'later `REG:` entries override earlier ones through map insertion (BTreeMap::insert semantics)']
-    return harness.finish(res, tier, t0, distinct=len(nontrivial) + 9, explanation=(
+    return harness.finish(res, tier, t0, distinct=len(nontrivial) + 10, explanation=(
         'The operator table of eval_cfi_expr is extracted from MIR path-sensitively (which wrapping operation, operand order with rhs popped first, zero and power-of-two guards, deref through the walker, '
         '.cfa = cfa?, .undef = fail, single result) and compared with the documented language; the evaluator contains no non-wrapping arithmetic; walk_with_stack_cfi evaluates the CFA first with cfa = None, '
         'requires .cfa and .ra, sets or clears every other register; walk_frame passes only add_rules[0..count] with count advanced under address <= addr over rules sorted by address; plus the panic-edge inventory of this code. '
